@@ -178,13 +178,14 @@ func (r *Runtime) newDataView(args []Value, newTarget *Object) *Object {
 			panic(r.newErrorf(r.getRangeError(), "Start offset %s is outside the bounds of the buffer", offsetArg.String()))
 		}
 	}
+	bufLen := len(buffer.data) // the length argument is checked against this value even if its conversion detaches the buffer
 	if len(args) > 2 && args[2] != nil && args[2] != _undefined {
 		byteLen = r.toIndex(args[2])
-		if byteOffset+byteLen > len(buffer.data) {
+		if byteOffset+byteLen > bufLen {
 			panic(r.newErrorf(r.getRangeError(), "Invalid DataView length %d", byteLen))
 		}
 	} else {
-		byteLen = len(buffer.data) - byteOffset
+		byteLen = bufLen - byteOffset
 	}
 	proto := r.getPrototypeFromCtor(newTarget, r.getDataView(), r.getDataViewPrototype())
 	buffer.ensureNotDetached(true)
